@@ -103,7 +103,7 @@ CHECKS = {
         text='TLC checks the listed identities on the path definition for every grid point (3 reference phases x heat-capacity coefficients x 4 placements of Tm, Tb around T_ref x S0); for each grid point a real '
              'Chemical is built through Chemical.blank + add_method + reset_free_energies so that the library\'s own _init_energies, its nine enthalpy/entropy functors and IdealMixture run, and H, S (at three pressures), '
              'Cn in all three phases at transition and off-transition temperatures plus mixture H, Cn, S of two such chemicals must equal the integer values of the path definition (one unit of 1/400 J/mol, 1/20 J/mol/K).',
-        note='Trusted: TLC; synthetic chemicals with Cn = 2cT (polynomial family only; database chemicals and "arbitrary Cn symbolically" are not covered); gas pressure term and ideal mixing term removed by the driver using the library\'s R.'),
+        note='Trusted: TLC; synthetic chemicals with Cn = 2cT (polynomial family only; "arbitrary Cn symbolically" is not covered); 8 database chemicals x 3 reference phases are checked with measured identities (ppm deviations judged by TLC); scaled amounts and the multi-phase forms xH / xCn / xS included; gas pressure term and ideal mixing term removed by the driver using the library\'s R.'),
     'C02': dict(
         engine='Energy', category='model_checking',
         technique='TLA+ enthalpy-ledger spec (Energy.tla: mix with heat input, energy-balanced separation, enthalpy / entropy assignment) model-checked by TLC; histories executed on real streams (database chemicals) are validated step by step by TLC against the ledger in fixed point',
